@@ -27,6 +27,9 @@ EXC_PARENTS = {"InvalidForwardStep": "IndexError", "InvalidReverseStep": "IndexE
                "InvalidActionIndex": "IndexError", "InvalidRevolverAction": "Exception"}
 
 
+NOTFOUND = object()
+
+
 class Obligation:
     def __init__(self, name, props, pc, goal, loc, function, kind, clause, path_id):
         self.name = name
@@ -220,6 +223,9 @@ class Engine:
                 ln = z3.Int(n + ".len")
                 return SymList(arrs, ln, comps, tup=(len(comps) > 1 or (len(ty) > 2 and ty[2])),
                                immutable=(tag == "tuplelist")), [ln >= 0]
+            if tag == "opt":
+                v, cs = self.fresh(ty[1], hint)
+                return Opt(z3.Bool(n + ".none"), v), cs
             if tag == "tuple":
                 vals, cons = [], []
                 for i, c in enumerate(ty[1]):
@@ -250,8 +256,11 @@ class Engine:
         if ty == "str":
             return EnumV("str", z3.Int(n)), []
         if ty == "set":
-            return SymSet(z3.Const(n + ".s", z3.ArraySort(z3.IntSort(), z3.BoolSort())),
-                          z3.Int(n + ".card")), []
+            arr = z3.Const(n + ".s", z3.ArraySort(z3.IntSort(), z3.BoolSort()))
+            card = z3.Int(n + ".card")
+            x = z3.Int("x!%d" % next(self.fresh_id))
+            # well-formedness of the (characteristic array, cardinality) encoding of a finite set
+            return SymSet(arr, card), [card >= 0, z3.ForAll([x], z3.Implies(z3.Select(arr, x), card >= 1))]
         if ty == "none":
             return None, []
         raise EngineError("unknown type %r" % (ty,))
@@ -275,6 +284,11 @@ class Engine:
             return self.fresh("real", hint)
         if isinstance(v, EnumV):
             return self.fresh("storage" if v.sort == "StorageType" else "str", hint)
+        if isinstance(v, Opt) and isinstance(v.val, tuple):
+            x, cs = self.fresh_like(v.val, hint)
+            return Opt(z3.Bool("%s.none!%d" % (hint, next(self.fresh_id))), x), cs
+        if isinstance(v, Opt) and is_boolish(v.val):
+            return self.fresh("optbool", hint)
         if isinstance(v, Opt) or v is None:
             return self.fresh("optint", hint)
         if isinstance(v, SymList):
@@ -603,7 +617,7 @@ class Engine:
         if i is not None:
             return v
         g = self.global_name(n.id, st)
-        if g is not None:
+        if g is not NOTFOUND:
             return g
         raise Unsupported("name %s is not bound (NameError or unsupported global) at line %s"
                           % (n.id, getattr(n, "lineno", "?")))
@@ -617,6 +631,10 @@ class Engine:
             return name == "True"
         if name == "MAXSIZE":
             return MAXSIZE
+        if name in self.contract.globals:
+            return self.ev(ast.parse(self.contract.globals[name], mode="eval").body, st)
+        if name == "warnings":
+            return ClassRef("warnings")
         fi = st.frames[-1].func or self.fi
         consts = self.index.module_consts.get(fi.module, {})
         if name in consts and not st.spec_mode:
@@ -624,10 +642,10 @@ class Engine:
             try:
                 return self.ev(node, st)
             except Unsupported:
-                return None
+                return NOTFOUND
         if name in self.reg.spec_functions:
             return self.reg.spec_functions[name]
-        return None
+        return NOTFOUND
 
     def ev_Attribute(self, n, st):
         base = self.ev(n.value, st)
@@ -851,6 +869,9 @@ class Engine:
         return self.index_value(base, idx, st, n)
 
     def index_value(self, base, idx, st, node):
+        if isinstance(base, Opt):
+            self.oblige(st, Not(base.isnone), "none_is_not_subscriptable", node)
+            base = base.val
         if isinstance(base, tuple):
             if isinstance(idx, int):
                 if not (-len(base) <= idx < len(base)):
@@ -943,6 +964,8 @@ class Engine:
                 kw = {k.arg: self.ev(k.value, st) for k in n.keywords}
                 return self.call_contract(c, [selfv] + args, kw, st, n)
             base = self.ev(f.value, st)
+            if isinstance(base, ClassRef) and base.name == "warnings":
+                return None       # warnings.warn(...): no state effect (dropped, DESIGN.md 3.1)
             target = self.getattr_(base, f.attr, st, n) if not isinstance(base, (SymList, EmptyList, SymSet)) \
                 else ("listmethod", base, f.attr, n)
             args = [self.ev(a, st) for a in n.args]
@@ -1305,8 +1328,14 @@ class Engine:
         old_heap = {k: dict(v) for k, v in st.heap.items()}
         res = None
         if c.pure and c.uf is not None:
-            res = self.apply_uf(c.uf, [bound[p] for p in c.uf_params])
-            res = c.wrap_result(res)
+            if isinstance(c.uf, list):
+                res = tuple(self.apply_uf(f, [bound[p] for p in c.uf_params]) for f in c.uf)
+                for comp, t in zip(res, c.returns[1]):
+                    if t == "steptype":
+                        st.assume(And(self.cmp(ast.GtE(), comp, 0), self.cmp(ast.LtE(), comp, 6)))
+            else:
+                res = self.apply_uf(c.uf, [bound[p] for p in c.uf_params])
+                res = c.wrap_result(res)
         elif c.returns is not None:
             res, cs = self.fresh(c.returns, "ret_" + c.short)
             for x in cs:
